@@ -9,7 +9,7 @@ for p in $(python3 -c "import json;print(' '.join(c['property_id'] for c in json
   [ $r -ne 0 ] && rc=1
   # on the unchanged tree a contract that cannot be interpreted, or a baseline obligation that is no longer generated,
   # is a defect of the machinery (the check silently covers less): fail loudly here, before anything is committed
-  if echo "$out" | grep -q "^UNDECIDED: contract not interpretable\|baseline obligations were not generated\|^ENGINE-ERROR"; then echo "run_all: $p covers less than its baseline"; rc=1; fi
+  if echo "$out" | grep -q "^UNDECIDED: contract\|baseline obligations were not generated\|^ENGINE-ERROR"; then echo "run_all: $p covers less than its baseline"; rc=1; fi
 done
 python3-vt - <<'PY'
 import json,jsonschema,glob,sys
